@@ -124,6 +124,8 @@ def run(ctx):
                 n_ret += 1
                 o = tr.origin(s['rv']['a']) if s['rv']['r'] == 'use' else {'o': 'rvalue'}
                 okr = o['o'] == 'arg' and o['l'] in state_args and not o['p']
+                if not okr:
+                    okr = _state_component_returned(b, tr, oa.defs, s['rv'], state_args)
                 rep.check(okr, 'R4', 'return-is-the-moved-in-state', where(b, bi, si),
                           'return place := move of the state parameter',
                           'the stepping function returns something other than the state it was given '
@@ -304,6 +306,36 @@ def _sources(b, oa, sc, within=None):
             out.append(('other', 'no definition of _%d found' % l))
     visit(sc, (), None)
     return out
+
+
+def _state_component_returned(b, tr, defs, rv, state_args, depth=0):
+    """The returned value is a record that carries the moved-in state next to other data (`(state, summary)`), or the state
+    component of such a record built on every path (`helper(state).0` with the helper spliced in)."""
+    def is_state(op):
+        if 'l' not in op:
+            return False
+        o = tr.origin(op)
+        return o['o'] == 'arg' and o['l'] in state_args and not o['p']
+    if rv['r'] == 'aggr' and rv.get('agg') in ('tuple', 'adt'):
+        st = [op for op in rv['ops'] if is_state(op)]
+        # exactly one component is the state parameter; no other component has its type (a saved copy riding along)
+        sty = b.local_ty(state_args[0]) if state_args else None
+        others = [op for op in rv['ops'] if not is_state(op) and op.get('ty') == sty]
+        return len(st) == 1 and not others
+    if rv['r'] == 'use' and 'l' in rv['a'] and depth < 3:
+        a = rv['a']
+        flds = [e for e in a['p'] if isinstance(e, dict) and 'f' in e]
+        if len(flds) == 1 and len(a['p']) == 1:
+            ds = [d for d in defs.of(a['l'])]
+            if ds and all(d[2] == 'assign' and d[3]['r'] == 'aggr' and d[3].get('agg') in ('tuple', 'adt') and
+                          flds[0]['f'] < len(d[3]['ops']) and is_state(d[3]['ops'][flds[0]['f']]) for d in ds):
+                return True
+        if not a['p']:
+            ds = [d for d in defs.of(a['l'])]
+            if ds and all(d[2] == 'assign' and _state_component_returned(b, tr, defs, d[3], state_args, depth + 1) or
+                          (d[2] == 'assign' and d[3]['r'] == 'use' and is_state(d[3]['a'])) for d in ds):
+                return True
+    return False
 
 
 def _r3(ctx):
